@@ -401,7 +401,7 @@ func init() {
 		ID:    "C20",
 		Level: "fault_enumeration",
 		Rule: "grid Timeout{0,1ms,1.5s,10s,2min,1h} x MaxRetryDelay{0,1ms,3s,30s,10min} x per-attempt latency{0,1ms,1s,40s} enumerated completely (one run per cell), " +
-			"inside each cell k failures-then-success for every k until the getter gives up twice, then failures forever; thorough adds tape-chosen settings beyond the grid. " +
+			"inside each cell k failures-then-success for every k until the getter gives up twice, then failures forever; failures carry the errors a real getter fails with (plain, *url.Error wrapping context.DeadlineExceeded as http.Client.Timeout gives, wrapped context.Canceled, unexpected EOF, a net timeout, an HTTP status text), one kind per cell or a different one each attempt; besides the bounds from the statement, an error returned while even a full MaxRetryDelay wait would end inside the timeout is an early give-up; thorough adds tape-chosen settings beyond the grid. " +
 			"distinct = (timeout idx, delay idx, latency idx, k bucket, outcome); every case has at least one injected failure or a slow/zero setting except k=0 (kept as control)",
 		Exhaustive: true,
 		Assumptions: []string{
